@@ -14,8 +14,17 @@ usage:
       one forked child per case (RLIMIT_AS 8 GB, alarm); pysph is imported
       before forking.  A case is
         {id, cls: "module:Class", dim, solids, clean, opts: {name: value},
+         ctor_opts: {name: value} (default: opts), route: "same" | "flip",
          integrator: null | "module:Class", chooser: bool,
          mode: "gen" | "run"}
+      The scheme is CONSTRUCTED with ctor_opts (for the options that are
+      constructor parameters) and the option assignment `opts` is then
+      applied through scheme.configure(**opts) before configure_solver /
+      setup_properties - the documented protocol (create_scheme, later
+      configure / consume_user_options).  route same: ctor_opts = opts;
+      route flip: every option has ANOTHER value at construction, so that
+      anything a scheme derives from its options at construction time and
+      does not re-derive is stale.
       mode gen: configure / configure_solver / setup_properties /
                 get_equations / get_solver on plain particle arrays, extract
                 the abstraction, build AccelerationEval + SPHCompiler and
@@ -28,6 +37,7 @@ usage:
 
 A trace (see spec/TraceSchemes.tla):
   id, scheme, dim, solids, clean, chooser, integrator, opts [{k, v}],
+  route, ctor [{k, v}]              construction-time values of the options
   setup  {ok, stage, msg}           which set-up call raised, if any
   arrays [{name, props[]}]          properties + constants after set-up
   eqs    [{cls, dest, sources[], d[], s[], syms[], stage, gd[], gs[]}]
@@ -200,9 +210,10 @@ def has_own(cls, name):
 
 
 def construct(path, dim, solids, opts):
-    """Instance with the table's constructor arguments; every option that
-    is a constructor parameter is given there as well (options are applied
-    again through configure, the documented way to change them)."""
+    """Instance with the table's constructor arguments; every option of
+    `opts` that is a constructor parameter is given there as well (the
+    final assignment is applied afterwards through configure, the
+    documented way to change options)."""
     cls = load(path)
     ent = TABLE[path]
     params = inspect.signature(cls.__init__).parameters
@@ -268,6 +279,7 @@ def scheme_axes(path):
     return dict(cls=path, name=cls.__name__, axes=axes, origin=origin,
                 dims=list(ent.get('dims', (1, 2, 3))),
                 solids='solids' in params,
+                ctor_options=sorted(k for k in axes if k in params),
                 integrators=ent.get('integrators', [None]),
                 numeric_cli_options_not_varied=numeric,
                 unbuildable=ent.get('unbuildable', {}),
@@ -448,6 +460,7 @@ def run_case(case):
     path = case['cls']
     ent = TABLE[path]
     opts = dict(case['opts'])
+    copts = dict(case.get('ctor_opts') or opts)
     names = ['fluid'] + (['solid'] if case['solids'] else [])
     for k, v in opts.items():
         if k in ent.get('lists', {}) and v:
@@ -457,6 +470,8 @@ def run_case(case):
               chooser=bool(case.get('chooser')),
               integrator=(case.get('integrator') or 'default').split(':')[-1],
               opts=[dict(k=k, v=sval(opts[k])) for k in sorted(opts)],
+              route=case.get('route', 'same'),
+              ctor=[dict(k=k, v=sval(copts[k])) for k in sorted(copts)],
               setup=dict(ok=True, stage='', msg=''),
               arrays=[], eqs=[], steppers=[], symtab=symtab(),
               gen=dict(done=False, ok=False, kind='skipped', eq='', msg=''),
@@ -467,7 +482,7 @@ def run_case(case):
     try:
         pas = make_arrays(case['dim'], names)
         sch = step('construct', construct, path, case['dim'],
-                   case['solids'], opts)
+                   case['solids'], copts)
         if case.get('chooser'):
             from pysph.sph.scheme import SchemeChooser
             other = step('construct', construct, path, case['dim'],
@@ -593,6 +608,7 @@ def run_case(case):
 def failed_trace(case, kind, msg):
     """The child died (signal / timeout): nothing could be extracted."""
     opts = case['opts']
+    copts = case.get('ctor_opts') or opts
     mode_run = case.get('mode') == 'run'
     return dict(
         id=case['id'], scheme=case['cls'].split(':')[1], dim=case['dim'],
@@ -600,6 +616,8 @@ def failed_trace(case, kind, msg):
         chooser=bool(case.get('chooser')),
         integrator=(case.get('integrator') or 'default').split(':')[-1],
         opts=[dict(k=k, v=sval(opts[k])) for k in sorted(opts)],
+        route=case.get('route', 'same'),
+        ctor=[dict(k=k, v=sval(copts[k])) for k in sorted(copts)],
         setup=dict(ok=False, stage=kind, msg=msg), arrays=[], eqs=[],
         steppers=[], symtab=symtab(), ms_setup=0, ms_gen=0,
         gen=dict(done=False, ok=False, kind='skipped', eq='', msg=''),
